@@ -23,6 +23,9 @@
 //	            debug.Stack/ReadBuildInfo — unless the text goes only to a logger (errtext.go)
 //	error-text-in-consensus-data err.Error() / `%s` `%v` of an error used as a VALUE (not to build another error, not logged, not
 //	            panicked): acknowledgement messages, event attributes, stored fields (errtext.go)
+//	node-local-config a value read from servertypes.AppOptions / viper / flags / server config structures (app.toml, config.toml) or handed on
+//	            by the app creator (home, invCheckPeriod, skipUpgradeHeights, traceStore, baseapp options) that flows into a keeper /
+//	            module / ante-handler constructor, a baseapp option or a field of a resident struct (nodeconfig.go; app/ and cmd/)
 //	shared-constant-mutation in-place write (big.Int mutator, index assignment, copy / append destination, *p = …) through a LOCAL
 //	            ALIAS of process memory: a package-level pointer of the module or of a dependency, the result of a call
 //	            that may hand back its argument or a global, a field of a resident struct (alias.go)
@@ -697,6 +700,9 @@ func main() {
 			pats = append(pats, "./"+r+"/...")
 		}
 	}
+	if _, err := os.Stat(filepath.Join(abs, "cmd")); err == nil {
+		pats = append(pats, "./cmd/...") // only for the node-local-config flows (app creator)
+	}
 	cfg := &packages.Config{
 		Mode: packages.NeedName | packages.NeedFiles | packages.NeedCompiledGoFiles | packages.NeedSyntax | packages.NeedTypes | packages.NeedTypesInfo | packages.NeedImports | packages.NeedDeps,
 		Dir:  abs,
@@ -709,6 +715,7 @@ func main() {
 	rep := Report{Repo: abs, ByKind: map[string]int{}}
 	all := map[string]*Site{}
 	resident := computeResident(pkgs)
+	var cfgFuncs []*cfgFunc
 	// index of the module's functions for the one-level return summaries of the alias analysis
 	packages.Visit(pkgs, nil, func(p *packages.Package) {
 		if p.Types == nil || !inModule(p.Types) || p.TypesInfo == nil {
@@ -742,8 +749,20 @@ func main() {
 			if excluded(rel) {
 				continue
 			}
-			rep.Files++
 			c := &collector{fset: p.Fset, info: p.TypesInfo, rel: rel, sites: all, ps: resident}
+			if strings.HasPrefix(rel, "app/") || strings.HasPrefix(rel, "cmd/") {
+				for _, d := range f.Decls {
+					if fd, ok := d.(*ast.FuncDecl); ok && fd.Body != nil {
+						if obj, ok2 := p.TypesInfo.Defs[fd.Name].(*types.Func); ok2 {
+							cfgFuncs = append(cfgFuncs, &cfgFunc{decl: fd, c: c, obj: obj})
+						}
+					}
+				}
+			}
+			if strings.HasPrefix(rel, "cmd/") {
+				continue // command line code: inventoried for configuration flows only
+			}
+			rep.Files++
 			c.holders(f)
 			for _, d := range f.Decls {
 				switch x := d.(type) {
@@ -764,6 +783,7 @@ func main() {
 			}
 		}
 	}
+	nodeConfigSites(cfgFuncs)
 	if len(rep.Errors) > 0 {
 		// a tree that does not type-check cannot be inventoried
 		for _, e := range rep.Errors {
